@@ -64,6 +64,8 @@ def run(an: Analysis, rep):
     rep.rule("R01.3", "every data-class field is produced by the decoder and consumed by the encoder", 30)
     rep.rule("R01.4", "every compiler-emittable flag has a representation", 11)
     rep.rule("R01.5", "inverse-pair constants", 3)
+    from .common import purity
+    rep.run(purity, an, rep, "R01.P", ["from_code", "to_code"])
     interps = []
     dcs = data_classes(an)
     produced_any = {}
